@@ -191,12 +191,15 @@ def cyc_ckpt_task(args):
     git repository; states = no checkpoint / checkpoint and nothing changed / a change only outside
     the cycle (committed, or untracked) / a change inside it. In every state the three grouping APIs
     reject with a graph error and `run` starts nothing."""
-    n, edges = args
+    n, edges = args[:2]
+    nocmd = len(args) > 2 and args[2]
     ts = flat_targets(n, edges, False) + [{"path": "x"}]
     tm = {t["path"]: t for t in ts}
     s = sc.Scratch("gck")
     try:
-        r = sc.Repo(s, "r", ts, commands={t["path"]: {"build": "x"} for t in ts})
+        # nocmd: the targets of the cyclic part have no command directory at all (library / docs targets
+        # that exist for change tracking only); only the unrelated target x can run anything
+        r = sc.Repo(s, "r", ts, commands={t["path"]: {"build": "x"} for t in ts if not nocmd or t["path"] == "x"})
         v = []
         judged = 0
         member = ts[0]["path"]
@@ -217,7 +220,7 @@ def cyc_ckpt_task(args):
         probe("no checkpoint")
         up = r.mr("checkpoint", "update")
         if up.code != 0:
-            return {"judged": judged, "v": [(sig, d, {"cli_cyc_ckpt": [n, edges]}) for sig, d in v]}  # checkpointing a cyclic config is not C09's subject
+            return {"judged": judged, "v": [(sig, d, {"cli_cyc_ckpt": [n, edges, nocmd]}) for sig, d in v]}  # checkpointing a cyclic config is not C09's subject
         probe("checkpoint, nothing changed")
         r.write("x/new.txt", "untracked\n")
         probe("checkpoint, untracked change outside the cycle")
@@ -227,7 +230,7 @@ def cyc_ckpt_task(args):
         r.write(member + "/edit.txt", "edit\n")
         r.commit("m")
         probe("checkpoint, committed change inside the cycle")
-        return {"judged": judged, "v": [(sig, d, {"cli_cyc_ckpt": [n, edges]}) for sig, d in v]}
+        return {"judged": judged, "v": [(sig, d, {"cli_cyc_ckpt": [n, edges, nocmd]}) for sig, d in v]}
     finally:
         s.cleanup()
 
@@ -288,6 +291,43 @@ def acyc_ckpt_task(args):
         s.cleanup()
 
 
+def symlink_targets_task(order):
+    """Acyclic configuration in which some target directories hold no regular file of their own: only
+    symbolic links to files, or only a symbolic link to a directory that has files. Every grouping API
+    still succeeds with a valid layering."""
+    ts = [{"path": "lib"}, {"path": "cfg"}, {"path": "vendor"}, {"path": "app", "uses": ["lib", "cfg"]}, {"path": "web", "uses": ["app", "vendor"]}]
+    if order == "reversed":
+        ts = list(reversed(ts))
+    tm = {t["path"]: t for t in ts}
+    s = sc.Scratch("gsym")
+    try:
+        r = sc.Repo(s, "r", ts, commands={t["path"]: {"build": "x"} for t in ts if t["path"] not in ("cfg", "vendor")}, init_git=False)
+        r.write("shared/settings.txt", "x\n")
+        r.write("third_party/pkg/file.txt", "x\n")
+        os.unlink(r.path("cfg/f.txt"))
+        os.symlink("../shared/settings.txt", r.path("cfg/settings.txt"))
+        os.unlink(r.path("vendor/f.txt"))
+        os.symlink("../third_party/pkg", r.path("vendor/pkg"))
+        v = []
+        judged = 0
+        for name, argv, getg in (("target show -g", ["target", "show", "-g"], lambda d: d.get("target_groups")),
+                                 ("analyze --target-groups", ["analyze", "--target-groups"], lambda d: d.get("target_groups")),
+                                 ("run -c build", ["run", "-c", "build"], lambda d: [list(g) for g in d["results"][0]["target_groups"]]),
+                                 ("run -c build -t web --deps", ["run", "-c", "build", "-t", "web", "--deps"], lambda d: [list(g) for g in d["results"][0]["target_groups"]])):
+            res = r.mr(*argv, env=r.trace_env())
+            judged += 1
+            d = res.json()
+            if res.code != 0 or d is None:
+                v.append(("acyclic-rejected-by-cli", "%s with target directories that hold only symbolic links: exit %s %s" % (name, res.code, res.err[:200])))
+                continue
+            bad = layering_defect(tm, set(tm), getg(d) or [])
+            if bad:
+                v.append(("bad-layering-cli", "%s: %s (groups %s)" % (name, bad, getg(d))))
+        return {"judged": judged, "v": [(sig, d, {"cli_symlink_targets": order}) for sig, d in v]}
+    finally:
+        s.cleanup()
+
+
 def acyc_ckpt_cases(tier):
     out = []
     for n in (2, 3):
@@ -307,7 +347,8 @@ def cyc_ckpt_cases(tier):
             ts = flat_targets(n, edges, False)
             if has_cycle({t["path"]: t for t in ts}):
                 out.append((n, edges))
-    return out if tier != "quick" else out[::3]
+    out = out if tier != "quick" else out[::3]
+    return out + [(n, e, True) for (n, e) in out[:: (2 if tier != "quick" else 4)]]
 
 
 def graph_cases(prop, tier):
@@ -420,6 +461,8 @@ def _wrap(fn_name, arg):
             return cyc_ckpt_task(arg)
         if fn_name == "acyc":
             return acyc_ckpt_task(arg)
+        if fn_name == "sym":
+            return symlink_targets_task(arg)
         if fn_name == "c01":
             return c01_task(arg)
     except common.EngineError as e:
@@ -440,6 +483,10 @@ def _wcy(a):
     return _wrap("cyc", a)
 
 
+def _wsy(a):
+    return _wrap("sym", a)
+
+
 def _wac(a):
     return _wrap("acyc", a)
 
@@ -458,6 +505,7 @@ def run_slice(prop, tier):
             res += common.pmap(_wcy, cyc_ckpt_cases(tier), chunksize=1)
         else:
             res += common.pmap(_wac, acyc_ckpt_cases(tier), chunksize=1)
+            res += common.pmap(_wsy, ["declared", "reversed"], chunksize=1)
     elif prop == "C01":
         res = common.pmap(_w01, c01_cases(tier), chunksize=2)
     else:
